@@ -1,35 +1,83 @@
-"""Correspondence: random operation histories on real `Mesh2D` objects vs the Lean model
-`Model/MeshCache.lean` (driver op `model.mesh2d_history`).  After every step the private
-slots of the real object are compared with the model's slot state: filled/empty (and
-scalar/tuple kind, list lengths, faces) exactly, values within 1e-9."""
+"""Model correspondence (C03): operation histories on real `Mesh2D` objects vs the Lean cache
+machine `Model/MeshCache.lean` (driver op `model.mesh2d_history`).
+
+A history = a start mesh (built by a real factory, cold or with some slots already read) and
+1..8 operations (reads, duplicate, move, rotate, reflect, scale, remove_faces_only,
+remove_vertices, remove_faces, triangulated, join_meshes).  After every step the PRIVATE
+slots of the real object (`_min _max _center _centroid _area _face_areas _face_centroids
+_face_area_centroids`, `_vertices`, `_faces`) are compared with the model's state: faces,
+filled/empty, scalar/tuple kind and list lengths exactly, values within 1e-9 (relative to the
+coordinate magnitude).  An `AssertionError` of the real method must be `{"err":"assert"}` in
+the model (state unchanged on both sides); any other exception is a disagreement.
+
+Two real operations have no model op of their own and are tied to a composition:
+  `m.remove_faces(p)`            ~ `remove_faces_only(p)` ; `remove_vertices(vp)`  (vp = the
+                                    vertices used by the kept faces)
+  `Mesh2D.join_meshes([m, a, b])` ~ `join a` ; `join b`
+(the model state is compared after the last op of the composition only).
+"""
 import math
+import os
 import random
 import sys
+import time
 from fractions import Fraction
 
-sys.path.insert(0, '/verif/tools/harness')
+if __name__ == '__main__':
+    sys.path.insert(0, os.path.dirname(os.path.dirname(os.path.abspath(__file__))))
 import lbg  # noqa: E402
-lbg.LEAN_DIR = '/tmp/agents/p_c03b/lean'
-lbg.scratch_dir = lambda: '/tmp/agents/p_c03b'
 
 from ladybug_geometry.geometry2d.pointvector import Point2D, Vector2D  # noqa: E402
 from ladybug_geometry.geometry2d.mesh import Mesh2D  # noqa: E402
 from ladybug_geometry.geometry2d.polygon import Polygon2D  # noqa: E402
 
+PROPS = ['C03']
+MODELS = ['LbgVerif/Model/MeshCache.lean', 'LbgVerif/Model/Dispatch_MeshCache.lean']
+REAL = ['ladybug_geometry/_mesh.py:MeshBase',
+        'ladybug_geometry/geometry2d/mesh.py:Mesh2D (memo slots: readers, __copy__, '
+        '_mesh_transform, _mesh_scale, remove_vertices, remove_faces, remove_faces_only, '
+        'triangulated, join_meshes, _quad_to_triangles)']
+TRUSTED = [
+    'meshcache2d: the model computes in exact rationals on the doubles the real code holds; '
+    'values are compared within 1e-9 relative to the coordinate magnitude, so rounding of '
+    'the real arithmetic below that band is not seen',
+    'meshcache2d: histories in which a quad of the current mesh is within 1e-9 of a '
+    '`_quad_to_triangles` decision threshold (zero turn, ray parameter 0/1) are cut at that '
+    'step and counted as float ties',
+    'meshcache2d: the start state of a history is read off the real factory result '
+    '(from_grid, from_polygon_grid, ...): the factories themselves are not modelled here; '
+    'colours and the topological slots (_edge_*, _vertex_connected_faces) are not compared',
+]
+
+OP = 'model.mesh2d_history'
 W = lbg.wnum
-TOL = Fraction(1, 10 ** 9)
-SLOTS = ['min', 'max', 'center', 'centroid', 'area', 'face_areas', 'face_centroids',
-         'face_area_centroids']
+REL = Fraction(1, 10 ** 9)
+POINT_SLOTS = ('min', 'max', 'center', 'centroid')
+LIST_SLOTS = ('face_centroids', 'face_area_centroids')
+SLOTS = POINT_SLOTS + ('area', 'face_areas') + LIST_SLOTS
+READS = ['area', 'face_areas', 'face_centroids', 'face_area_centroids', 'min', 'max',
+         'center', 'centroid']
+TV = (Fraction(1), Fraction(0.00001))       # Vector2D(1, 0.00001)
 
 
+# ------------------------------------------------------------------ wire <-> real
 def pt(p):
     return [W(p.x), W(p.y)]
+
+
+def fl(s):
+    """Wire number -> double (exact: every wire number of a request is a double)."""
+    return float(Fraction(s))
+
+
+def P(j):
+    return Point2D(fl(j[0]), fl(j[1]))
 
 
 def slot_wire(m):
     """Private slots of a real mesh -> wire JSON (None = empty)."""
     out = {}
-    for k in ('min', 'max', 'center', 'centroid'):
+    for k in POINT_SLOTS:
         v = getattr(m, '_' + k)
         out[k] = None if v is None else pt(v)
     out['area'] = None if m._area is None else W(m._area)
@@ -40,7 +88,7 @@ def slot_wire(m):
         out['face_areas'] = {'inl': W(fa)}
     else:
         out['face_areas'] = {'inr': [W(a) for a in fa]}
-    for k in ('face_centroids', 'face_area_centroids'):
+    for k in LIST_SLOTS:
         v = getattr(m, '_' + k)
         out[k] = None if v is None else [pt(p) for p in v]
     return out
@@ -53,48 +101,243 @@ def state_wire(m):
     return d
 
 
-def canon(d):
-    """wire state -> comparable (shape, numbers)."""
-    shape, nums = [], []
+def mesh_from_wire(d):
+    """State wire -> real Mesh2D with the recorded slots (used by replay / shrinking)."""
+    m = Mesh2D(tuple(P(v) for v in d['vertices']), tuple(tuple(f) for f in d['faces']))
+    for k in POINT_SLOTS:
+        if d.get(k) is not None:
+            setattr(m, '_' + k, P(d[k]))
+    if d.get('area') is not None:
+        m._area = fl(d['area'])
+    fa = d.get('face_areas')
+    if fa is not None:
+        m._face_areas = fl(fa['inl']) if 'inl' in fa else tuple(fl(a) for a in fa['inr'])
+    for k in LIST_SLOTS:
+        if d.get(k) is not None:
+            setattr(m, '_' + k, tuple(P(q) for q in d[k]))
+    return m
 
-    def num(s):
-        nums.append(Fraction(s))
 
-    def p2(j):
-        num(j[0]); num(j[1])
-    shape.append(('faces', [list(f) for f in d['faces']]))
-    shape.append(('nverts', len(d['vertices'])))
-    for v in d['vertices']:
-        p2(v)
-    for k in ('min', 'max', 'center', 'centroid'):
-        shape.append((k, d[k] is not None))
-        if d[k] is not None:
-            p2(d[k])
-    shape.append(('area', d['area'] is not None))
-    if d['area'] is not None:
-        num(d['area'])
-    fa = d['face_areas']
-    if fa is None:
-        shape.append(('face_areas', None))
-    elif 'inl' in fa:
-        shape.append(('face_areas', 'scalar'))
-        num(fa['inl'])
-    else:
-        shape.append(('face_areas', ('tuple', len(fa['inr']))))
-        for a in fa['inr']:
-            num(a)
-    for k in ('face_centroids', 'face_area_centroids'):
-        v = d[k]
-        shape.append((k, None if v is None else len(v)))
-        if v is not None:
-            for q in v:
-                p2(q)
-    return shape, nums
+# ------------------------------------------------------------------ real side of a history
+def n_cont(ops, i):
+    n = 0
+    while i + 1 + n < len(ops) and ops[i + 1 + n].get('_cont'):
+        n += 1
+    return n
+
+
+def apply_real(m, w, conts):
+    """Execute the real operation of wire op `w` (with its continuation ops)."""
+    op = w.get('_real', w['op'])
+    if op.startswith('read_'):
+        getattr(m, op[5:])
+        return m
+    if op == 'duplicate':
+        return m.duplicate()
+    if op == 'triangulated':
+        return m.triangulated()
+    if op == 'move':
+        return m.move(Vector2D(fl(w['v'][0]), fl(w['v'][1])))
+    if op == 'rotate':
+        return m.rotate(float.fromhex(w['_angle']), P(w['o']))
+    if op == 'reflect':
+        return m.reflect(Vector2D(fl(w['n'][0]), fl(w['n'][1])), P(w['o']))
+    if op == 'scale':
+        return m.scale(fl(w['k']), P(w['o']))
+    if op == 'scale_world':
+        k = fl(w['k'])
+        return m.scale(int(k) if w.get('_int') else k)
+    if op == 'remove_faces_only':
+        return m.remove_faces_only(list(w['pattern']))
+    if op == 'remove_vertices':
+        return m.remove_vertices(list(w['pattern']))[0]
+    if op == 'remove_faces':
+        return m.remove_faces(list(w['pattern']))[0]
+    if op == 'join':
+        return Mesh2D.join_meshes([m, mesh_from_wire(w['other'])])
+    if op == 'join3':
+        return Mesh2D.join_meshes([m, mesh_from_wire(w['other']),
+                                   mesh_from_wire(conts[0]['other'])])
+    raise ValueError('unknown op %r' % (op,))
+
+
+def real_history(m, ops, on_state=None):
+    """-> list aligned with `ops`: state wire | {'err':'assert'} | {'raise': name} | None
+    (None = inner op of a composition, not compared)."""
+    exp = []
+    i = 0
+    while i < len(ops):
+        k = n_cont(ops, i)
+        try:
+            m2 = apply_real(m, ops[i], ops[i + 1:i + 1 + k])
+            res = state_wire(m2)
+            m = m2
+        except AssertionError:
+            res = {'err': 'assert'}
+        except Exception as e:      # noqa: BLE001 - anything the code throws is recorded
+            res = {'raise': type(e).__name__}
+        if on_state is not None and quad_tie(m):
+            res = {'tie': True}
+        exp.extend([None] * k + [res])
+        i += 1 + k
+        if 'tie' in res:
+            exp.extend([None] * (len(ops) - len(exp)))
+            break
+    return exp
+
+
+# ------------------------------------------------------------------ float ties
+def ray_tie(vs, p, tv):
+    """True when the exact ray/segment tests of `is_point_inside(p, tv)` on the loop `vs`
+    (Fractions) come within 1e-9 of a decision threshold."""
+    n = len(vs)
+    scale = max([Fraction(1)] + [abs(c) for v in vs for c in v])
+    for i in range(n):
+        a, b = vs[i], vs[(i + 1) % n]
+        avx, avy = b[0] - a[0], b[1] - a[1]
+        t1, t2 = tv[1] * avx, tv[0] * avy
+        d = t1 - t2
+        if d == 0:
+            if avx != 0 or avy != 0:
+                return True         # exactly parallel: the doubles may see d != 0
+            continue
+        if abs(d) <= REL * (abs(t1) + abs(t2)):
+            return True
+        dy, dx = a[1] - p[1], a[0] - p[0]
+        ua = (tv[0] * dy - tv[1] * dx) / d
+        if abs(ua) < REL or abs(ua - 1) < REL:
+            return True
+        if ua < 0 or ua > 1:
+            continue
+        ub = (avx * dy - avy * dx) / d
+        if abs(ub) < REL * scale:
+            return True
+        cond = (abs(avx) + abs(avy)) * (abs(tv[0]) + abs(tv[1])) / abs(d)
+        if cond > 2 * 10 ** 5 + 10:
+            return True             # ill-conditioned: the code's isclose re-check may fail
+    return False
+
+
+def quad_tie(m):
+    """True when some quad of the real mesh is within 1e-9 of a `_quad_to_triangles`
+    decision threshold in exact arithmetic."""
+    vs = [(Fraction(v.x), Fraction(v.y)) for v in m._vertices]
+    for f in m._faces:
+        if len(f) != 4:
+            continue
+        q = [vs[i] for i in f]
+        signs = []
+        for i in range(4):
+            p1, p2, p3 = q[i - 2], q[i - 1], q[i]
+            t1 = (p2[0] - p1[0]) * (p3[1] - p2[1])
+            t2 = (p2[1] - p1[1]) * (p3[0] - p2[0])
+            if abs(t1 - t2) <= REL * (abs(t1) + abs(t2)):
+                return True
+            signs.append(t1 - t2 > 0)
+        if len(set(signs)) > 1:     # concave: the diagonal-midpoint test is evaluated
+            mid = (q[0][0] + (q[2][0] - q[0][0]) / 2, q[0][1] + (q[2][1] - q[0][1]) / 2)
+            if ray_tie(q, mid, TV):
+                return True
+    return False
+
+
+# ------------------------------------------------------------------ comparison
+def slot_shape(d, k):
+    v = d.get(k)
+    if v is None:
+        return 'empty'
+    if k == 'face_areas':
+        return 'scalar' if 'inl' in v else 'tuple[%d]' % len(v['inr'])
+    if k in LIST_SLOTS:
+        return 'list[%d]' % len(v)
+    return 'filled'
+
+
+def slot_numbers(d, k):
+    v = d[k]
+    if k in POINT_SLOTS:
+        return [Fraction(v[0]), Fraction(v[1])]
+    if k == 'area':
+        return [Fraction(v)]
+    if k == 'face_areas':
+        return [Fraction(v['inl'])] if 'inl' in v else [Fraction(a) for a in v['inr']]
+    return [Fraction(c) for q in v for c in q]
+
+
+def compare_states(a, e):
+    """model state `a`, real state `e` -> None | (what-key, detail)."""
+    if [list(f) for f in a['faces']] != [list(f) for f in e['faces']]:
+        return 'faces differ', 'model %s real %s' % (a['faces'], e['faces'])
+    if len(a['vertices']) != len(e['vertices']):
+        return 'vertex count differs', 'model %d real %d' % (len(a['vertices']),
+                                                            len(e['vertices']))
+    ev = [Fraction(c) for v in e['vertices'] for c in v]
+    av = [Fraction(c) for v in a['vertices'] for c in v]
+    s = max([Fraction(1)] + [abs(c) for c in ev])
+    dv = max([abs(x - y) for x, y in zip(av, ev)] or [Fraction(0)])
+    if dv > REL * s:
+        return 'vertices differ', 'max |diff| %.3g' % float(dv)
+    for k in SLOTS:
+        sa, se = slot_shape(a, k), slot_shape(e, k)
+        if sa != se:
+            return 'slot %s: model %s, real %s' % (k, _kind(sa), _kind(se)), \
+                'model %s real %s' % (sa, se)
+    for k in SLOTS:
+        if e.get(k) is None:
+            continue
+        unit = s * s if k in ('area', 'face_areas') else s
+        for x, y in zip(slot_numbers(a, k), slot_numbers(e, k)):
+            if abs(x - y) > REL * max(unit, abs(y)):
+                return 'slot %s: value differs' % k, 'model %.17g real %.17g' % (
+                    float(x), float(y))
+    return None
+
+
+def _kind(shape):
+    return shape.split('[')[0] if '[' in shape else shape
+
+
+def compare_history(ops, val, exp):
+    """-> (n compared, tie?, None | (step index, what-key, detail))."""
+    n = 0
+    if len(val) != len(ops):
+        return 0, False, (0, 'answer length', 'model answered %d of %d ops' % (len(val), len(ops)))
+    for i, e in enumerate(exp):
+        if e is None:
+            continue
+        if 'tie' in e:
+            return n, True, None
+        a = val[i]
+        n += 1
+        if 'raise' in e:
+            return n, False, (i, 'raises %s' % e['raise'],
+                              'real raises %s, model %s' % (
+                                  e['raise'], 'raises' if 'err' in a else 'returns a state'))
+        if 'err' in a or 'err' in e:
+            if ('err' in a) != ('err' in e):
+                return n, False, (i, 'error mismatch: %s raises' % (
+                    'model' if 'err' in a else 'real'), 'AssertionError on one side only')
+            continue
+        bad = compare_states(a, e)
+        if bad:
+            return n, False, (i, bad[0], bad[1])
+    return n, False, None
+
+
+def real_op_name(ops, i):
+    """Name of the real operation whose result is compared at wire index i."""
+    while i > 0 and ops[i].get('_cont'):
+        i -= 1
+    return ops[i].get('_real', ops[i]['op'])
 
 
 # ------------------------------------------------------------------ generators
 def lat(r, lo=-6, hi=6, den=2):
     return r.randint(lo * den, hi * den) / float(den)
+
+
+def coord(r, stream):
+    return lat(r) if stream == 'lattice' else r.uniform(-10, 10)
 
 
 BASE_MESHES = [
@@ -109,161 +352,460 @@ BASE_MESHES = [
      [(0, 1, 2, 3), (1, 4, 5, 2), (3, 2, 7, 6), (2, 5, 8, 7)]),
     ([(0, 0), (2, 0), (3, 2), (1, 2), (5, 5)], [(3, 2, 1, 0), (1, 2, 4)]),  # clockwise quad
     ([(2, 1), (0, 0), (4, 0), (1, 1), (0, 4)], [(1, 2, 3, 4), (0, 3, 2)]),
+    ([(0, 0), (5, 0), (5, 4), (2, 1)], [(0, 1, 2, 3)]),         # concave, reflex at vertex 3
+    ([(0, 0), (3, 1), (6, 0), (3, 5)], [(0, 1, 2, 3)]),         # concave dart, reflex at 1
+    ([(0, 0), (3, 1), (6, 0), (3, 5), (8, 6)], [(3, 2, 1, 0), (2, 4, 3)]),   # clockwise dart
+    ([(0, 0), (2, 0), (1, 2), (5, 5), (6, 5), (5, 7)], [(0, 1, 2), (3, 4, 5)]),  # 2 islands
+    ([(0, 0), (2, 0), (2, 2), (0, 2), (9, 9)], [(0, 1, 2, 3)]),             # unused vertex
+]
+
+POLYGONS = [
+    [(0, 0), (4, 0), (4, 4), (0, 4)],
+    [(0, 0), (4, 0), (4, 2), (2, 2), (2, 4), (0, 4)],                  # L shape
+    [(0, 0), (6, 0), (0, 6)],                                          # triangle
+    [(0, 0), (6, 0), (6, 4), (4, 4), (4, 2), (2, 2), (2, 4), (0, 4)],  # U shape
+    [(0, 4), (4, 4), (4, 0), (0, 0)],                                  # clockwise square
+    [(0, 0), (5, 1), (6, 5), (2, 6), (-1, 3)],                         # convex pentagon
 ]
 
 
-def random_mesh(r):
-    kind = r.random()
-    if kind < 0.35:
-        nx, ny = r.randint(1, 3), r.randint(1, 3)
-        return Mesh2D.from_grid(Point2D(lat(r), lat(r)), nx, ny,
-                                r.choice([0.5, 1.0, 2.0, 1.5]), r.choice([0.5, 1.0, 2.0]),
-                                generate_centroids=r.random() < 0.7)
-    if kind < 0.5:
-        w, h = r.choice([2.0, 4.0]), r.choice([2.0, 4.0])
-        x0, y0 = lat(r), lat(r)
-        poly = Polygon2D([Point2D(x0, y0), Point2D(x0 + w, y0), Point2D(x0 + w, y0 + h),
-                          Point2D(x0, y0 + h)])
-        return Mesh2D.from_polygon_grid(poly, r.choice([1.0, 2.0, 1.5]), r.choice([1.0, 2.0]),
-                                        generate_centroids=r.random() < 0.7)
-    vs, fs = r.choice(BASE_MESHES)
-    k = r.choice([1.0, 0.5, 2.0])
-    dx, dy = lat(r), lat(r)
-    return Mesh2D([Point2D(x * k + dx, y * k + dy) for x, y in vs], fs)
+def random_mesh(r, stream, hist):
+    """-> (real mesh, source kind)."""
+    for _ in range(20):
+        kind = r.random()
+        try:
+            if kind < 0.28:
+                nx, ny = r.randint(1, 3), r.randint(1, 3)
+                if stream == 'lattice':
+                    xd, yd = r.choice([0.5, 1.0, 2.0, 1.5, 1]), r.choice([0.5, 1.0, 2.0, 2])
+                else:
+                    xd, yd = r.uniform(0.2, 3), r.uniform(0.2, 3)
+                return (Mesh2D.from_grid(Point2D(coord(r, stream), coord(r, stream)), nx, ny,
+                                         xd, yd, generate_centroids=r.random() < 0.7),
+                        'from_grid')
+            if kind < 0.48:
+                k = r.choice([1.0, 0.5, 2.0]) if stream == 'lattice' else r.uniform(0.5, 2)
+                x0, y0 = coord(r, stream), coord(r, stream)
+                poly = Polygon2D([Point2D(x * k + x0, y * k + y0)
+                                  for x, y in r.choice(POLYGONS)])
+                if stream == 'lattice':
+                    xd, yd = r.choice([1.0, 2.0, 1.5, 0.75]) * k, r.choice([1.0, 2.0]) * k
+                else:
+                    xd, yd = r.uniform(0.6, 2.2) * k, r.uniform(0.6, 2.2) * k
+                return (Mesh2D.from_polygon_grid(poly, xd, yd,
+                                                 generate_centroids=r.random() < 0.7),
+                        'from_polygon_grid')
+            if kind < 0.56:
+                k = r.choice([1.0, 0.5, 2.0]) if stream == 'lattice' else r.uniform(0.5, 2)
+                x0, y0 = coord(r, stream), coord(r, stream)
+                poly = Polygon2D([Point2D(x * k + x0, y * k + y0)
+                                  for x, y in r.choice(POLYGONS)])
+                return Mesh2D.from_polygon_triangulated(poly), 'from_polygon_triangulated'
+            vs, fs = r.choice(BASE_MESHES)
+            k = r.choice([1.0, 0.5, 2.0]) if stream == 'lattice' else r.uniform(0.4, 2.5)
+            dx, dy = coord(r, stream), coord(r, stream)
+            pts = [Point2D(x * k + dx, y * k + dy) for x, y in vs]
+            fs2 = []
+            for f in fs:                 # every cyclic start of a face; sometimes reversed
+                s = r.randrange(len(f))
+                f = f[s:] + f[:s]
+                fs2.append(tuple(f))
+            if r.random() < 0.15:
+                fs2 = [tuple(reversed(f)) for f in fs2]
+            if kind < 0.66:
+                purge = r.random() < 0.5
+                return (Mesh2D.from_face_vertices([[pts[i] for i in f] for f in fs2], purge),
+                        'from_face_vertices')
+            return Mesh2D(pts, fs2), 'explicit'
+        except AssertionError:
+            hist['source']['(factory assert, redrawn)'] = \
+                hist['source'].get('(factory assert, redrawn)', 0) + 1
+    return Mesh2D([Point2D(0, 0), Point2D(1, 0), Point2D(0, 1)], [(0, 1, 2)]), 'explicit'
 
 
-READS = ['area', 'face_areas', 'face_centroids', 'face_area_centroids', 'min', 'max',
-         'center', 'centroid']
-
-
-def random_pattern(r, n, allow_bad=True):
+def random_pattern(r, n):
     x = r.random()
-    if allow_bad and x < 0.04:
-        return [r.random() < 0.5 for _ in range(n + r.choice([-1, 1]))]
-    if allow_bad and x < 0.08:
+    if x < 0.04:
+        return [r.random() < 0.5 for _ in range(max(0, n + r.choice([-1, 1])))]
+    if x < 0.08:
         return [False] * n
-    p = [r.random() < 0.7 for _ in range(n)]
-    return p
+    if x < 0.12:
+        return [True] * n
+    return [r.random() < 0.7 for _ in range(n)]
 
 
-def random_op(r, m):
-    """-> (wire op, function real mesh -> new real mesh)."""
-    x = r.random()
-    if x < 0.34:
-        name = r.choice(READS)
-
-        def f(m, name=name):
-            getattr(m, name)
-            return m
-        return {'op': 'read_' + name}, f
-    if x < 0.40:
-        return {'op': 'duplicate'}, lambda m: m.duplicate()
-    if x < 0.47:
-        v = Vector2D(lat(r), lat(r))
-        return {'op': 'move', 'v': pt(v)}, lambda m: m.move(v)
-    if x < 0.55:
-        ang = r.randint(-4, 4) * math.pi / 2
-        o = Point2D(lat(r), lat(r))
-        return ({'op': 'rotate', 'c': W(math.cos(ang)), 's': W(math.sin(ang)), 'o': pt(o)},
-                lambda m: m.rotate(ang, o))
-    if x < 0.62:
-        n = r.choice([Vector2D(1, 0), Vector2D(0, 1), Vector2D(-1, 0), Vector2D(0, -1),
-                      Vector2D(0.6, 0.8), Vector2D(-0.8, 0.6)])
-        o = Point2D(lat(r), lat(r))
-        return {'op': 'reflect', 'n': pt(n), 'o': pt(o)}, lambda m: m.reflect(n, o)
-    if x < 0.70:
-        k = r.choice([2.0, 0.5, 3.0])
-        o = Point2D(lat(r), lat(r))
-        return {'op': 'scale', 'k': W(k), 'o': pt(o)}, lambda m: m.scale(k, o)
-    if x < 0.75:
-        k = r.choice([2.0, 0.5, 3.0, 2])
-        return {'op': 'scale_world', 'k': W(k)}, lambda m: m.scale(k)
-    if x < 0.82:
-        p = random_pattern(r, len(m.faces))
-        return {'op': 'remove_faces_only', 'pattern': p}, lambda m: m.remove_faces_only(p)
-    if x < 0.89:
-        p = random_pattern(r, len(m.vertices))
-        return {'op': 'remove_vertices', 'pattern': p}, lambda m: m.remove_vertices(p)[0]
-    if x < 0.94:
-        return {'op': 'triangulated'}, lambda m: m.triangulated()
-    other = random_mesh(r)
+def other_mesh(r, stream, hist):
+    o, _ = random_mesh(r, stream, hist)
     for _ in range(r.randint(0, 3)):
-        getattr(other, r.choice(READS))
+        try:
+            getattr(o, r.choice(READS))
+        except Exception:       # noqa: BLE001
+            pass
     if r.random() < 0.3:
-        other = other.scale(2.0)
-    ow = state_wire(other)
-    return {'op': 'join', 'other': ow}, lambda m: Mesh2D.join_meshes([m, other])
+        o = o.scale(2.0)
+    return state_wire(o)
 
 
-def main(n_hist=500, max_len=8, seed=20260930):
-    r = random.Random(seed)
-    requests, expected, descr = [], [], []
-    stats = {'steps': 0, 'asserts': 0, 'ops': {}}
-    for h in range(n_hist):
-        m = random_mesh(r)
-        for _ in range(r.randint(0, 2)):       # pre-history reads are part of the seed
-            if r.random() < 0.3:
-                getattr(m, r.choice(READS))
-        v0 = [pt(p) for p in m._vertices]
-        f0 = [list(f) for f in m._faces]
-        seeded = slot_wire(m)
-        ops, exp = [], []
-        for _ in range(r.randint(1, max_len)):
-            w, f = random_op(r, m)
-            ops.append(w)
-            stats['ops'][w['op']] = stats['ops'].get(w['op'], 0) + 1
-            try:
-                m = f(m)
-                exp.append(state_wire(m))
-            except AssertionError:
-                exp.append({'err': 'assert'})
-                stats['asserts'] += 1
-        requests.append(('model.mesh2d_history', [v0, f0, seeded, ops]))
-        expected.append(exp)
-        descr.append((v0, f0, seeded, ops))
-    answers = lbg.Driver().run(requests)
-    bad = 0
-    maxd = Fraction(0)
-    for h, ((ok, val), exp) in enumerate(zip(answers, expected)):
-        if not ok:
-            print('history', h, 'driver error', val)
-            bad += 1
+def random_op(r, m, stream, hist):
+    """-> list of wire ops (one real operation)."""
+    x = r.random()
+    c = lambda: coord(r, stream)     # noqa: E731
+    if x < 0.32:
+        return [{'op': 'read_' + r.choice(READS)}]
+    if x < 0.38:
+        return [{'op': 'duplicate'}]
+    if x < 0.45:
+        return [{'op': 'move', 'v': pt(Vector2D(c(), c()))}]
+    if x < 0.53:
+        ang = r.randint(-4, 4) * math.pi / 2 if stream == 'lattice' or r.random() < 0.2 \
+            else r.uniform(-7, 7)
+        return [{'op': 'rotate', 'c': W(math.cos(ang)), 's': W(math.sin(ang)),
+                 'o': pt(Point2D(c(), c())), '_angle': float(ang).hex()}]
+    if x < 0.60:
+        if stream == 'lattice' or r.random() < 0.3:
+            n = r.choice([Vector2D(1, 0), Vector2D(0, 1), Vector2D(-1, 0), Vector2D(0, -1),
+                          Vector2D(0.6, 0.8), Vector2D(-0.8, 0.6)])
+        else:
+            a = r.uniform(0, 2 * math.pi)
+            n = Vector2D(math.cos(a), math.sin(a)).normalize()
+        return [{'op': 'reflect', 'n': pt(n), 'o': pt(Point2D(c(), c()))}]
+    if x < 0.67:
+        k = r.choice([2.0, 0.5, 3.0, -1.0, -2.0]) if stream == 'lattice' else \
+            r.choice([-1, 1]) * r.uniform(0.3, 2.5)
+        return [{'op': 'scale', 'k': W(k), 'o': pt(Point2D(c(), c()))}]
+    if x < 0.72:
+        k = r.choice([2.0, 0.5, 3.0, 2, -1]) if stream == 'lattice' else r.uniform(0.3, 2.5)
+        w = {'op': 'scale_world', 'k': W(k)}
+        if isinstance(k, int):
+            w['_int'] = True
+        return [w]
+    if x < 0.78:
+        return [{'op': 'remove_faces_only', 'pattern': random_pattern(r, len(m._faces))}]
+    if x < 0.84:
+        return [{'op': 'remove_vertices', 'pattern': random_pattern(r, len(m._vertices))}]
+    if x < 0.89:
+        p = random_pattern(r, len(m._faces))
+        w = {'op': 'remove_faces_only', 'pattern': p, '_real': 'remove_faces'}
+        if len(p) != len(m._faces) or not any(p):
+            return [w]          # must raise on both sides
+        used = set(i for f, keep in zip(m._faces, p) if keep for i in f)
+        return [w, {'op': 'remove_vertices', '_cont': True,
+                    'pattern': [i in used for i in range(len(m._vertices))]}]
+    if x < 0.93:
+        return [{'op': 'triangulated'}]
+    if x < 0.98:
+        return [{'op': 'join', 'other': other_mesh(r, stream, hist)}]
+    return [{'op': 'join', '_real': 'join3', 'other': other_mesh(r, stream, hist)},
+            {'op': 'join', '_cont': True, 'other': other_mesh(r, stream, hist)}]
+
+
+def bump(h, k, n=1):
+    h[k] = h.get(k, 0) + n
+
+
+def random_history(r, stream, hist, max_len=8):
+    """-> (request args, expected list)."""
+    m, src = random_mesh(r, stream, hist)
+    bump(hist['source'], src)
+    warm = 0
+    for _ in range(r.choice([0, 0, 1, 2, 3])):       # pre-history reads: warm cache
+        try:
+            getattr(m, r.choice(READS))
+            warm += 1
+        except Exception:       # noqa: BLE001
+            pass
+    bump(hist['start_cache'], 'warm' if any(v is not None for v in slot_wire(m).values())
+         else 'cold')
+    start = state_wire(m)
+    # generation needs the sizes of the current mesh: run the real ops on a scratch copy
+    ops = []
+    cur = mesh_from_wire(start)
+    for _ in range(r.randint(1, max_len)):
+        ws = random_op(r, cur, stream, hist)
+        try:
+            cur = apply_real(cur, ws[0], ws[1:])
+        except Exception:       # noqa: BLE001
+            pass
+        ops.extend(ws)
+    exp = real_history(m, ops, on_state=True)
+    args = [start['vertices'], start['faces'], {k: start[k] for k in SLOTS}, ops]
+    return args, exp
+
+
+# ------------------------------------------------------------------ fixed corpus
+def _grid_state(nx, ny, xd, yd, cent, reads=()):
+    m = Mesh2D.from_grid(Point2D(1, -2), nx, ny, xd, yd, generate_centroids=cent)
+    for k in reads:
+        getattr(m, k)
+    return m
+
+
+def fixed_corpus():
+    """Hand-picked histories: every op, every error branch, scalar/tuple areas, both
+    diagonals of concave quads, warm and cold joins."""
+    out = []
+    sq = [(0, 0), (2, 0), (2, 2), (0, 2), (4, 0), (4, 2)]
+    two = lambda: Mesh2D([Point2D(*p) for p in sq], [(0, 1, 2, 3), (1, 4, 5, 2)])  # noqa: E731
+    dart = lambda fs: Mesh2D([Point2D(*p) for p in [(0, 0), (3, 1), (6, 0), (3, 5), (8, 6)]],  # noqa: E731
+                             fs)
+    other_warm = _grid_state(1, 2, 0.5, 2.0, True, ['area'])
+    other_cold = two()
+    allreads = [{'op': 'read_' + k} for k in READS]
+    hp = math.pi / 2
+    rot = {'op': 'rotate', 'c': W(math.cos(hp)), 's': W(math.sin(hp)), 'o': ['1', '1'],
+           '_angle': float(hp).hex()}
+    out.append((two(), allreads + [{'op': 'duplicate'}] + allreads))
+    out.append((two(), [{'op': 'read_centroid'}, {'op': 'move', 'v': ['3', '-1/2']},
+                        {'op': 'read_centroid'}, rot, {'op': 'read_center'},
+                        {'op': 'reflect', 'n': ['3/5', '4/5'], 'o': ['0', '1']},
+                        {'op': 'read_face_area_centroids'}]))
+    out.append((_grid_state(2, 2, 1.5, 2, True),
+                [{'op': 'scale', 'k': '3', 'o': ['1', '1']}, {'op': 'read_area'},
+                 {'op': 'scale_world', 'k': '2', '_int': True}, {'op': 'read_face_areas'},
+                 {'op': 'scale_world', 'k': '-1/2'}, {'op': 'duplicate'},
+                 {'op': 'read_centroid'}]))
+    out.append((_grid_state(2, 3, 1.0, 0.5, False, ['face_areas', 'area']),
+                [{'op': 'remove_faces_only', 'pattern': [True, False, True, True, False, True]},
+                 {'op': 'read_face_centroids'},
+                 {'op': 'remove_faces_only', 'pattern': [True, False, True]},      # too short
+                 {'op': 'remove_faces_only', 'pattern': [False] * 4},              # empties
+                 {'op': 'remove_faces_only', 'pattern': [True] * 5},               # too long
+                 {'op': 'remove_vertices', 'pattern': [True] * 12},
+                 {'op': 'remove_vertices', 'pattern': [True] * 11},                # too short
+                 {'op': 'remove_vertices', 'pattern': [False] * 12},               # empties
+                 {'op': 'remove_vertices',
+                  'pattern': [True, True, True, True, True, True, True, True, False, True,
+                              True, True]},
+                 {'op': 'read_area'}]))
+    out.append((_grid_state(2, 2, 1.0, 1.0, True, ['centroid']),
+                [{'op': 'remove_faces_only', 'pattern': [True, True, False, True],
+                  '_real': 'remove_faces'},
+                 {'op': 'remove_vertices', '_cont': True,
+                  'pattern': [True, True, True, True, True, True, False, True, True]},
+                 {'op': 'read_face_areas'},
+                 {'op': 'remove_faces_only', 'pattern': [False, False, False],
+                  '_real': 'remove_faces'},                                         # empties
+                 {'op': 'remove_faces_only', 'pattern': [True, True], '_real': 'remove_faces'},
+                 {'op': 'read_centroid'}]))
+    for fs in ([(0, 1, 2, 3), (2, 4, 3)], [(1, 2, 3, 0), (2, 4, 3)], [(3, 2, 1, 0), (2, 4, 3)],
+               [(2, 1, 0, 3), (2, 4, 3)]):
+        out.append((dart(fs), [{'op': 'read_face_area_centroids'}, {'op': 'triangulated'},
+                               {'op': 'read_centroid'}, {'op': 'triangulated'}]))
+    out.append((_grid_state(1, 2, 2.0, 1.0, True),
+                [{'op': 'join', 'other': state_wire(other_warm)}, {'op': 'read_area'},
+                 {'op': 'join', 'other': state_wire(other_cold)}, {'op': 'read_face_areas'},
+                 {'op': 'triangulated'}, {'op': 'read_max'}]))
+    out.append((_grid_state(1, 1, 2.0, 1.0, False, ['face_centroids', 'face_areas']),
+                [{'op': 'join', '_real': 'join3', 'other': state_wire(other_warm)},
+                 {'op': 'join', '_cont': True,
+                  'other': state_wire(_grid_state(2, 1, 1.0, 1.0, True, ['face_areas']))},
+                 {'op': 'read_centroid'}, {'op': 'duplicate'}, {'op': 'read_min'}]))
+    return out
+
+
+# ------------------------------------------------------------------ run
+def budget(ctx):
+    thorough = ctx.tier == 'thorough' or bool(getattr(ctx, 'broken', None))
+    wall = 240.0 if thorough else 14.0
+    return thorough, min(time.time() + wall, getattr(ctx, 'deadline', float('inf')) - 5)
+
+
+def signature(ops, i, what):
+    return '%s|%s: %s' % (OP, real_op_name(ops, i), what)
+
+
+def nontrivial_steps(args, exp):
+    """Compared steps in which a memo value is in play: a read on a warm cache, or any other
+    op whose resulting state carries a filled slot, or an error step."""
+    n = 0
+    prev_filled = any(args[2].get(k) is not None for k in SLOTS)
+    ops = args[3]
+    for i, e in enumerate(exp):
+        if e is None:
             continue
-        assert len(val) == len(exp)
-        for i, (a, e) in enumerate(zip(val, exp)):
-            stats['steps'] += 1
-            if 'err' in a or 'err' in e:
-                if ('err' in a) != ('err' in e):
-                    print('history', h, 'step', i, descr[h][3][i]['op'], 'error mismatch',
-                          'model' if 'err' in a else 'real')
-                    bad += 1
-                    break
+        if 'tie' in e:
+            break
+        if 'err' in e or 'raise' in e:
+            n += 1
+            continue
+        filled = any(e.get(k) is not None for k in SLOTS)
+        if ops[i]['op'].startswith('read_'):
+            n += 1 if prev_filled else 0
+        else:
+            n += 1 if filled else 0
+        prev_filled = filled
+    return n
+
+
+def check_one(driver, args):
+    """Run one history on both sides -> None | disagreement core (step, what, detail)."""
+    m = mesh_from_wire(dict(args[2], vertices=args[0], faces=args[1]))
+    exp = real_history(m, args[3], on_state=True)
+    ok, val = driver.run([(OP, args)])[0]
+    if not ok:
+        return (0, 'driver error', str(val)[:200])
+    return compare_history(args[3], val, exp)[2]
+
+
+def shrink(driver, args, what_key, deadline):
+    """Cut the history after the failing step, then drop single ops while the same
+    disagreement remains (one driver batch per round)."""
+    for _ in range(4):
+        if time.time() > deadline:
+            break
+        ops = args[3]
+        cands = []
+        for j in range(len(ops)):
+            if ops[j].get('_cont'):
                 continue
-            sa, na = canon(a)
-            se, ne = canon(e)
-            if sa != se:
-                print('history', h, 'step', i, descr[h][3][i]['op'], 'SHAPE mismatch')
-                for x, y in zip(sa, se):
-                    if x != y:
-                        print('   model', x, ' real', y)
-                print('   ops', [o['op'] for o in descr[h][3][:i + 1]])
-                bad += 1
+            k = n_cont(ops, j)
+            cands.append(args[:3] + [ops[:j] + ops[j + 1 + k:]])
+        cands = [c for c in cands if c[3]]
+        if not cands:
+            break
+        exps = []
+        for c in cands:
+            m = mesh_from_wire(dict(c[2], vertices=c[0], faces=c[1]))
+            exps.append(real_history(m, c[3], on_state=True))
+        answers = driver.run([(OP, c) for c in cands])
+        better = None
+        for c, e, (ok, val) in zip(cands, exps, answers):
+            if not ok:
+                continue
+            bad = compare_history(c[3], val, e)[2]
+            if bad and signature(c[3], bad[0], bad[1]) == what_key:
+                better = c[:3] + [c[3][:bad[0] + 1]]
                 break
-            d = max([abs(x - y) for x, y in zip(na, ne)] or [Fraction(0)])
-            maxd = max(maxd, d)
-            if d > TOL:
-                print('history', h, 'step', i, descr[h][3][i]['op'], 'VALUE mismatch', float(d))
-                print('   ops', [o['op'] for o in descr[h][3][:i + 1]])
-                bad += 1
+        if better is None:
+            break
+        args = better
+    return args
+
+
+def make_disagreement(args, bad, seed):
+    i, what, detail = bad
+    ops = args[3]
+    cut = args[:3] + [ops[:i + 1]]
+    return {'signature': signature(ops, i, what),
+            'what': 'after %s (step %d of %s): %s — %s' % (
+                real_op_name(ops, i), i, [o.get('_real', o['op']) for o in ops[:i + 1]
+                                          if not o.get('_cont')], what, detail),
+            'op': OP, 'args': cut, 'model': what, 'real': detail, 'seed': seed}
+
+
+def run(ctx, prop):
+    t0 = time.time()
+    thorough, stop = budget(ctx)
+    hist = {'source': {}, 'start_cache': {}, 'ops': {}, 'history_length': {}, 'stream': {},
+            'faces_at_start': {}, 'real_errors': {}, 'face_areas_kind': {},
+            'filled_slots_per_state': {}}
+    out = {'requests': 0, 'nontrivial': 0, 'disagreements': [], 'float_ties': 0,
+           'histograms': hist, 'samples': [],
+           'rule': 'request = one step of an operation history compared slot by slot; '
+                   'non-trivial = a read on a warm cache, a non-read op whose result carries '
+                   'a filled memo slot, or a step on which the real method raises'}
+    if prop not in PROPS:
+        return out
+    found = {}
+
+    def do_batch(cases, label):
+        if not cases:
+            return
+        answers = ctx.driver.run([(OP, a) for a, _ in cases])
+        for (args, exp), (ok, val) in zip(cases, answers):
+            ops = args[3]
+            bump(hist['history_length'], len([o for o in ops if not o.get('_cont')]))
+            bump(hist['faces_at_start'], min(len(args[1]), 10))
+            for o in ops:
+                if not o.get('_cont'):
+                    bump(hist['ops'], o.get('_real', o['op']))
+            if not ok:
+                bad, n, tie = (0, 'driver error', str(val)[:200]), 0, False
+            else:
+                n, tie, bad = compare_history(ops, val, exp)
+            out['requests'] += n
+            out['float_ties'] += 1 if tie else 0
+            out['nontrivial'] += nontrivial_steps(args, exp)
+            for e in exp:
+                if e is None or 'tie' in e:
+                    continue
+                if 'err' in e or 'raise' in e:
+                    bump(hist['real_errors'], e.get('err') or e.get('raise'))
+                else:
+                    bump(hist['face_areas_kind'], _kind(slot_shape(e, 'face_areas')))
+                    bump(hist['filled_slots_per_state'],
+                         sum(1 for k in SLOTS if e.get(k) is not None))
+            if bad:
+                d = make_disagreement(args, bad, '%s/%s' % (ctx.seed, label))
+                if d['signature'] not in found:
+                    found[d['signature']] = d
+            elif len(out['samples']) < 3 and 2 <= len(ops) <= 3 and label != 'fixed':
+                out['samples'].append({'op': OP, 'args': args, 'agrees': True})
+
+    # fixed corpus first
+    cases = []
+    for m, ops in fixed_corpus():
+        start = state_wire(m)
+        args = [start['vertices'], start['faces'], {k: start[k] for k in SLOTS}, ops]
+        cases.append((args, real_history(m, ops, on_state=True)))
+        bump(hist['source'], 'fixed corpus')
+    do_batch(cases, 'fixed')
+
+    # random histories
+    r = random.Random('%s/corr.meshcache2d' % ctx.seed)
+    per_batch = 1500 if thorough else 260
+    rounds = 0
+    while time.time() < stop and (rounds < 1 or thorough) and rounds < 12:
+        cases = []
+        for _ in range(per_batch):
+            stream = 'lattice' if r.random() < 0.55 else 'float'
+            bump(hist['stream'], stream)
+            cases.append(random_history(r, stream, hist))
+            if time.time() > stop:
                 break
-    print('histories: %d  agreeing: %d  steps compared: %d  real AssertionErrors: %d  '
-          'max |diff| = %.3g' % (n_hist, n_hist - bad, stats['steps'], stats['asserts'],
-                                 float(maxd)))
-    print('op counts:', dict(sorted(stats['ops'].items())))
-    return bad
+        do_batch(cases, 'round%d' % rounds)
+        rounds += 1
+
+    for sig in sorted(found)[:8]:
+        d = found[sig]
+        if time.time() < stop + 20:
+            try:
+                d['args'] = shrink(ctx.driver, d['args'], sig, stop + 20)
+            except Exception:       # noqa: BLE001 - shrinking is best effort
+                pass
+        out['disagreements'].append(d)
+    out['seconds'] = round(time.time() - t0, 1)
+    return out
+
+
+def replay(ctx, disagreement):
+    """Re-run one recorded disagreement on the current tree."""
+    args = disagreement['args']
+    bad = check_one(ctx.driver, args)
+    if not bad:
+        return None
+    return make_disagreement(args, bad, disagreement.get('seed'))
 
 
 if __name__ == '__main__':
-    n = int(sys.argv[1]) if len(sys.argv) > 1 else 500
-    sd = int(sys.argv[2]) if len(sys.argv) > 2 else 20260930
-    sys.exit(1 if main(n, 8, sd) else 0)
+    class Ctx(object):
+        pass
+    ctx = Ctx()
+    ctx.seed = int(sys.argv[1]) if len(sys.argv) > 1 else int(os.environ.get('VERIF_SEED', '0'))
+    ctx.tier = sys.argv[2] if len(sys.argv) > 2 else os.environ.get('VERIF_TIER', 'quick')
+    ctx.broken = []
+    ctx.driver = lbg.Driver()
+    ctx.deadline = time.time() + 3600
+    t = time.time()
+    res = run(ctx, PROPS[0])
+    print('%s seed %s %s: %d requests, %d non-trivial, %d float ties, %d disagreements, %.1f s' % (
+        os.path.basename(__file__), ctx.seed, ctx.tier, res['requests'], res['nontrivial'],
+        res['float_ties'], len(res['disagreements']), time.time() - t))
+    for k, v in sorted(res['histograms'].items()):
+        print('  %s: %s' % (k, dict(sorted(v.items(), key=lambda kv: str(kv[0])))))
+    for d in res['disagreements']:
+        print('DISAGREEMENT', d['signature'], '::', d['what'][:400])
+        again = replay(ctx, d)
+        print('   replay:', 'reproduced' if again else 'NOT reproduced',
+              '(%d ops)' % len(d['args'][3]))
+    sys.exit(1 if res['disagreements'] else 0)
